@@ -2,7 +2,7 @@
 Functions under contract: rlbox::detail::convert_type_fundamental<T_To,T_From> for every ordered pair of the
 15 integer types of the statement (instantiated by clang from /repo/code/include/rlbox_conversion.hpp)."""
 from vlib.unit import Unit, Inst
-from .common import CXX_INTS, mi, tid
+from .common import cs, CXX_INTS, mi, tid
 
 PROP = 'C06'
 TITLE = 'Integers crossing the ABI boundary keep their value or the operation aborts'
@@ -35,6 +35,29 @@ def pair_inst(to, frm, tier):
                 note='T_To=%s T_From=%s' % (to, frm))
 
 
+def array_pair_inst(to, frm, n, tier):
+    """element by element for arrays: convert_type_fundamental_or_array on std::array<to, n> <- std::array<frm, n>
+    (g_w: an arbitrary element index; every element keeps its value or the call aborts)"""
+    cto, lo, hi = CXX_INTS[to]
+    cfr, flo, fhi = CXX_INTS[frm]
+    TA, FA = cs('std::array<%s, %d>' % (to, n), 'A_'), cs('std::array<%s, %d>' % (frm, n), 'A_')
+    allfit = ' && '.join('(MI($1->_M_elems[%d]) >= %s && MI($1->_M_elems[%d]) <= %s)' % (k, mi(lo), k, mi(hi)) for k in range(n))
+    allvalid = ' && '.join('(MI($1->_M_elems[%d]) >= %s && MI($1->_M_elems[%d]) <= %s)' % (k, mi(flo), k, mi(fhi)) for k in range(n))
+    cl = [('objs', '__CPROVER_requires(__CPROVER_rw_ok($0, sizeof(*$0)) && __CPROVER_r_ok($1, sizeof(*$1)) && g_w < %d)' % n),
+          ('source_valid', '__CPROVER_requires(%s)' % allvalid),
+          ('noabort_pre', '__CPROVER_requires(g_noabort ==> (%s))' % allfit),
+          ('every_element_keeps_its_value_or_abort', '__CPROVER_ensures(MI($0->_M_elems[g_w]) == MI(__CPROVER_old($1->_M_elems[g_w])))'),
+          ('frame', '__CPROVER_assigns(*$0)')]
+    lc = ('__CPROVER_assigns($LV, __CPROVER_object_whole($0))\n__CPROVER_loop_invariant($LV <= %d)\n'
+          '__CPROVER_loop_invariant(g_w < $LV ==> MI($0->_M_elems[g_w]) == MI($1->_M_elems[g_w]))\n__CPROVER_decreases(%d - $LV)' % (n, n))
+    h = ('  struct %s to; struct %s from; unsigned long in_w; g_w = in_w; __CPROVER_assume(in_w < %d); %s in_from = from._M_elems[in_w];\n'
+         '  _Bool in_noabort; g_noabort = in_noabort;\n  $ROOT(&to, &from);\n' % (TA, FA, n, cfr))
+    return Inst('c06_array_%s_%d__from__%s' % (tid(to), n, tid(frm)), 'std::array<%s, %d>& to, const std::array<%s, %d>& from' % (to, n, frm, n),
+                'detail::convert_type_fundamental_or_array(to, from);', cl, h, leaves=['dynamic_check'], prop=PROP, root_name='convert_type_fundamental_or_array',
+                tier=tier, pre='_Bool g_noabort; _Bool g_backend_nonnull; unsigned long g_expect_example; unsigned long g_expect_malloc_size; unsigned long g_w;',
+                loop_contracts={('convert_type_fundamental_or_array', 0): lc}, note='array of %d: T_To=%s T_From=%s' % (n, to, frm))
+
+
 def quick_pairs():
     # one pair per signedness/width branch of the function plus both boundary-sensitive neighbours
     q = [('int', 'long long'), ('long long', 'int'), ('unsigned int', 'unsigned long'), ('unsigned long', 'unsigned int'),
@@ -51,6 +74,11 @@ def units(tier):
     names = list(CXX_INTS)
     pairs = quick_pairs() if tier == 'quick' else [(a, b) for a in names for b in names]
     insts = [pair_inst(a, b, tier) for a, b in pairs]
+    # element by element for arrays: same width / other signedness (no bulk copy allowed), narrowing, widening, identical
+    apairs = [('unsigned int', 'int', 4), ('short', 'unsigned short', 3), ('int', 'long', 4), ('long', 'int', 2), ('int', 'int', 4)]
+    if tier != 'quick':
+        apairs += [('long', 'unsigned long', 2), ('unsigned char', 'signed char', 8), ('unsigned long', 'unsigned int', 3), ('char', 'int', 4)]
+    insts += [array_pair_inst(a, b, n, tier) for a, b, n in apairs]
     # "passing an argument of the parameter's own type, returning results": the invocation glue of C11 for signatures whose
     # long / unsigned long parameters and results narrow to 32 bits under the vsbx ABI (plain, tainted and opaque argument forms)
     from . import C11
